@@ -30,10 +30,14 @@ pub(crate) fn entity_created_on_client(
 
 pub(crate) fn entity_parented_on_client(
     mut client: ResMut<RenetClient>,
+    mut track: ResMut<SyncTrackerRes>,
     query: Query<(&Parent, &SyncEntity), Changed<Parent>>,
     query_parent: Query<(Entity, &SyncEntity), With<Children>>,
 ) {
     for (p, sup) in query.iter() {
+        if track.skip_network_parent_change(sup.uuid) {
+            continue;
+        }
         let Ok(parent) = query_parent.get(p.get()) else {
             continue;
         };
